@@ -152,6 +152,7 @@ type pkgCase struct {
 	Typ     string   `json:"type"`
 	Defects []string `json:"defects,omitempty"`
 	Ignore  string   `json:"ignoreCrossplaneConstraints"` // unset | false | true
+	Running string   `json:"runningCrossplaneVersion,omitempty"` // "" = runningVersion
 	Layout  string   `json:"layout"`
 	Perturb string   `json:"cache_perturbation"`
 	PullCfg bool     `json:"pull_secret_image_config,omitempty"`
@@ -269,6 +270,11 @@ func (rn *run) runPkg(i int, name string) {
 	c := rn.c
 	r := c.Rng("pkg", i)
 	p := rn.genPkg(r)
+	if i%4 == 3 {
+		// this package meets a pre-release build of Crossplane
+		p.Running = preRunning
+		p.Content.rebase(r)
+	}
 	if err := p.Content.materialise(r); err != nil {
 		c.Violate("harness:generator", name, err.Error(), p)
 		return
@@ -278,7 +284,10 @@ func (rn *run) runPkg(i int, name string) {
 		return
 	}
 	typ := pkgTypes[p.Typ]
-	e := newEnv(typ, uint64(c.Seed)*1000003+uint64(i), false)
+	e := newEnv(typ, uint64(c.Seed)*1000003+uint64(i), false, p.Running)
+	if p.Running != "" {
+		c.Count("pkg_cases_on_prerelease_crossplane", 1)
+	}
 	if !e.realV {
 		c.Count("versioner_fallback_used", 1)
 	}
